@@ -1,6 +1,7 @@
 """Checks decided by validating `decode` events against spec/Frame.tla (Trace_Decode):
 C01 C02 C03 C04 C06 C08 C09 C10.  A check for property P runs P's generators; every field of every
 event is judged, but only disagreements owned by P (Frame!Owner) make P's check fail."""
+import json
 import random
 
 import core
@@ -390,8 +391,17 @@ def trim(ev):
     return e
 
 
+STEP_D = {"C03": "MC_Crc", "C06": "MC_ModeAC", "C09": "MC_ModeAC"}
+
+
 def run(prop, tier, seed, rep, extra_inputs=None):
     rng = random.Random(seed * 1000003 + int(prop[1:]))
+    if prop in STEP_D:
+        # Step D: lemmas about the specification's own operators (independent of /repo, cached by the hash of spec/)
+        res = core.run_mc(STEP_D[prop], workers=8, timeout=3000, xmx="8g")
+        rep.add_model(res, STEP_D[prop])
+        if not res["ok"]:
+            raise core.ToolError(f"{STEP_D[prop]} fails on the specification itself: {res['violated']} {res['output_tail'][-400:]}")
     inputs = GENERATORS[prop](rng, tier)
     if extra_inputs:
         inputs += extra_inputs
@@ -400,18 +410,32 @@ def run(prop, tier, seed, rep, extra_inputs=None):
     events = core.run_hx(hx, args, inputs)
     if len(events) != len(inputs):
         raise core.ToolError(f"recorder returned {len(events)} events for {len(inputs)} inputs")
+    if prop == "C04":
+        import subprocess
+        r = subprocess.run([hx, "icao"], stdout=subprocess.PIPE, text=True, timeout=600)
+        if r.returncode != 0:
+            raise core.ToolError("hx icao failed")
+        icao = json.loads(r.stdout)
+        events.append(icao)
+        inputs.append({"bytes": []})
+        rep.extra["address_texts_round_tripped"] = icao["checked"]
     verdicts, st, tr = core.validate_events("Trace_Decode", events, prop)
     rep.add_trace_stats(st, tr, len(events))
     summary = {}
     for v in verdicts:
         ev = events[v["index"]]
+        if ev["ev"] == "icao":
+            for owner, field in v["pairs"]:
+                rep.mismatch(owner, v["cls"], field, {"kind": "icao", "event": {k: ev[k] for k in ("failures", "first_failure")}})
+            continue
         for owner, field in v["pairs"]:
             k = f"{owner}|{v['cls']}|{field}"
             summary.setdefault(k, [0, bytes(ev["bytes"]).hex(), ev.get("out")])[0] += 1
             rep.mismatch(owner, v["cls"], field, {"kind": "decode", "bytes": ev["bytes"], "hex": bytes(ev["bytes"]).hex(),
                                                   "observed": ev.get("out"), "outcome": ev.get("outcome")})
-    import json, os
+    import os
     json.dump(summary, open(os.path.join(core.BUILD, f"last_{prop}_verdicts.json"), "w"), indent=1, sort_keys=True)
+    events = [e for e in events if e["ev"] == "decode"]
     distinct = len({bytes(e["bytes"]) for e in events})
     accepted = sum(1 for e in events if e["out"].get("ok") == 1)
     rep.extra.update({"events": len(events), "distinct_inputs": distinct, "accepted_frames": accepted,
